@@ -112,9 +112,16 @@ func fsDone(t *Thread, name string, res string, mutated bool, paths []string, er
 	}
 }
 
+// CrashHook, when set, sees the disk at every crash point (after every FS mutation).
+var CrashHook func(tree map[string]string, after string)
+
 func observeDisk(after string) {
 	s := Cur
-	d := Digest(".")
+	tree := ReadTree(".")
+	if CrashHook != nil {
+		CrashHook(tree, after)
+	}
+	d := digestOf(tree)
 	Digests[d]++
 	if DigestInfo[d] == nil {
 		cs := &CrashState{ID: len(DigestInfo), Digest: d, After: after, Events: s.EventList(), Notes: s.NoteList(), Choices: s.ChoiceIndices()}
@@ -420,8 +427,9 @@ func ReadTree(root string) map[string]string {
 
 // Digest of a directory: paths, types, content hashes (log/ excluded). Audit files are
 // classified empty / partial / complete, because their IDs and times differ between runs.
-func Digest(root string) string {
-	tree := ReadTree(root)
+func Digest(root string) string { return digestOf(ReadTree(root)) }
+
+func digestOf(tree map[string]string) string {
 	parts := make([]string, 0, len(tree))
 	for p, c := range tree {
 		switch {
@@ -429,7 +437,7 @@ func Digest(root string) string {
 			parts = append(parts, "d:"+p)
 		case c == "<fifo>":
 			parts = append(parts, "p:"+p)
-		case strings.HasSuffix(p, ".audit.json"):
+		case strings.HasSuffix(p, ".audit.json") || strings.HasSuffix(p, ".audit.json.tmp"):
 			cls := "complete"
 			if len(c) == 0 {
 				cls = "empty"
